@@ -1,2 +1,57 @@
-(* C18 placeholder *)
-From Prov Require Import World.
+(* C18 — identifier lookup and typed listing always agree with the record list.
+   Statements only; proofs in theories/WorldProofs.v, InterpProofs.v. *)
+From Coq Require Import String List.
+From Prov Require Import Str Sexp Tables Nsm Values Record World Interp WorldProofs InterpProofs.
+Import ListNotations.
+Open Scope string_scope.
+
+(* the identifier map and the record list are two separate fields of the model,
+   updated only where the Python code updates them; their agreement is an invariant
+   of every API call — factories, new_record, add_record, update, add_bundle,
+   constructor records, unified, flattened, attribute mutators — hence of every
+   reachable world *)
+Theorem C18_step_coherent : forall w o, WCoh w -> WCoh (fst (step w o)).
+Proof. exact step_coherent. Qed.
+Print Assumptions C18_step_coherent.
+
+Theorem C18_reachable_coherent : forall ft ops, WCoh (wrun ft ops).
+Proof. exact reachable_coherent. Qed.
+Print Assumptions C18_reachable_coherent.
+
+(* get_record(x) returns exactly the records whose identifier URI is the URI x
+   denotes, in insertion order (x in any spelling the resolver accepts) *)
+Theorem C18_get_record : forall w c b x m q,
+  get_cont w c = Some b -> Coherent b ->
+  resolve (parent_ns w c) (bns b) x = OK (m, Some q) ->
+  snd (step w (OGetRecord c (Some x))) = RRecs (filter (has_uri (qn_uri q)) (brecs b)).
+Proof. exact get_record_spec. Qed.
+Print Assumptions C18_get_record.
+
+(* get_records(cls) returns exactly the instances of cls (generated class hierarchy) *)
+Theorem C18_get_records : forall w c b cls,
+  get_cont w c = Some b ->
+  snd (step w (OGetRecords c cls)) =
+  RRecs (match cls with None => brecs b | Some cn => filter (instance_of cn) (brecs b) end).
+Proof. exact get_records_spec. Qed.
+Print Assumptions C18_get_records.
+
+(* the class hierarchy used by instance_of is the generated one: ProvMention is a
+   ProvSpecialization, every class is a ProvRecord *)
+Example C18_hierarchy :
+  instance_of "ProvSpecialization" (mkRec "Mention" None []) = true /\
+  instance_of "ProvRelation" (mkRec "Mention" None []) = true /\
+  instance_of "ProvElement" (mkRec "Mention" None []) = false /\
+  forallb (fun e => instance_of "ProvRecord" (mkRec (fst (fst e)) None [])) rec_class_names = true.
+Proof. vm_compute. repeat split. Qed.
+
+(* non-vacuity: a reachable world with repeated identifiers; lookup computes *)
+Definition ex_ops : list op :=
+  [ONewDoc; OAddNs (CDoc 0) "ex" "http://e/";
+   ONewRecord (CDoc 0) "Entity" (Some (NStr "ex:a")) [];
+   ONewRecord (CDoc 0) "Agent" (Some (NStr "ex:b")) [];
+   ONewRecord (CDoc 0) "Entity" (Some (NQn (mkQn (mkNs "zz" "http://e/") "a"))) []].
+Example C18_lookup_computes :
+  snd (step (wrun [] ex_ops) (OGetRecord (CDoc 0) (Some (NStr "http://e/a")))) =
+  RRecs [mkRec "Entity" (Some (mkQn (mkNs "ex" "http://e/") "a")) [];
+         mkRec "Entity" (Some (mkQn (mkNs "ex" "http://e/") "a")) []].
+Proof. vm_compute. reflexivity. Qed.
